@@ -143,6 +143,21 @@ func computeDelta() {
 	}
 }
 
+// DeltaThreshold returns the largest number in [lo, hi] that is a literal (or a power 2^n / 10^n of a small literal n) of
+// the ecosystem's package - or of pkg/spec/vers - and is NOT in the baseline: the size at which a table, ring or cache
+// that a change introduced fills up is written in its source. 0 when there is none.
+func DeltaThreshold(eco string, lo, hi uint64) uint64 {
+	var best uint64
+	for _, pkg := range []string{eco, "vers"} {
+		for _, n := range newNums[pkg] {
+			if v, err := strconv.ParseUint(n, 10, 64); err == nil && v >= lo && v <= hi && v > best {
+				best = v
+			}
+		}
+	}
+	return best
+}
+
 // AnyNewLit draws a whole literal that some package of the tree under test has and the baseline has not ("" when the
 // delta is empty).
 func AnyNewLit(r *rand.Rand) string {
